@@ -24,6 +24,7 @@ import (
 	"time"
 
 	"github.com/mgtv-tech/redis-GunYu/pkg/redis/client/common"
+	"github.com/mgtv-tech/redis-GunYu/pkg/vfdoubles"
 	"github.com/mgtv-tech/redis-GunYu/pkg/vfutil"
 )
 
@@ -35,7 +36,7 @@ type vfcCmd struct {
 
 type vfcAct struct {
 	Refresh bool     `json:"r,omitempty"`
-	Ev      vfcMigEv `json:"e,omitempty"`
+	Ev      vfdoubles.MigEv `json:"e,omitempty"`
 }
 
 type vfcScn struct {
@@ -47,7 +48,7 @@ type vfcScn struct {
 	Window  int              `json:"window"`
 	Batches [][]vfcCmd       `json:"batches"`
 	Between map[int][]vfcAct `json:"between,omitempty"` // before the puts of batch i
-	During  []vfcSched       `json:"during,omitempty"`  // before the At-th data request
+	During  []vfdoubles.Sched       `json:"during,omitempty"`  // before the At-th data request
 	MidPut  map[string]bool  `json:"midput,omitempty"`  // "i.j": refresh lands before put j of batch i
 	Adv     bool             `json:"adversarial,omitempty"`
 }
@@ -64,7 +65,7 @@ type vfcAttempt struct {
 type vfcResult struct {
 	Trace    []string
 	NodeLog  [][]string
-	Execs    []vfcExec
+	Execs    []vfdoubles.ClusterExec
 	Attempts []vfcAttempt
 	Owner0   []int // initial owner per key
 	Notes    []string
@@ -93,7 +94,7 @@ func vfcErrClass(err error) string {
 }
 
 func vfcRun(scn *vfcScn) (*vfcResult, error) {
-	d, err := vfcNewDouble(scn.N, scn.Keys)
+	d, err := vfdoubles.NewCluster(scn.N, scn.Keys)
 	if err != nil {
 		return nil, err
 	}
@@ -102,15 +103,13 @@ func vfcRun(scn *vfcScn) (*vfcResult, error) {
 	if scn.Empty && m > 2 {
 		m--
 	}
-	for s := 0; s < 16384; s++ {
-		d.owner[s] = int16(s * m / 16384)
-	}
+	d.SetBaseLayout(m)
 	res := &vfcResult{}
 	for _, k := range scn.Keys {
-		res.Owner0 = append(res.Owner0, int(d.owner[vfcSlot(k)]))
+		res.Owner0 = append(res.Owner0, d.OwnerOf(vfdoubles.ClusterSlot(k)))
 	}
 	c, err := NewCluster(&Options{
-		StartNodes: d.addrs[:m], ConnTimeout: 2 * time.Second, ReadTimeout: 30 * time.Second, WriteTimeout: 30 * time.Second,
+		StartNodes: d.Addrs()[:m], ConnTimeout: 2 * time.Second, ReadTimeout: 30 * time.Second, WriteTimeout: 30 * time.Second,
 		KeepAlive: 8, AliveTime: time.Minute, HandleMoveError: true, HandleAskError: true,
 	})
 	if err != nil {
@@ -119,20 +118,17 @@ func vfcRun(scn *vfcScn) (*vfcResult, error) {
 	defer c.Close()
 	// park the real handleUpdate goroutine inside a CLUSTER SLOTS request so
 	// that asynchronous refreshes land exactly where the scenario says
-	d.mu.Lock()
-	d.parkOn = true
-	d.mu.Unlock()
-	if !VerifKickUpdate(c) || !d.waitParked(2*time.Second) {
+	d.EnablePark(0)
+	if !VerifKickUpdate(c) || !d.WaitParked(2*time.Second) {
 		return nil, fmt.Errorf("could not park the update goroutine")
 	}
-	d.mu.Lock()
-	d.trace = nil
-	d.sched = append([]vfcSched(nil), scn.During...)
-	sort.SliceStable(d.sched, func(i, j int) bool { return d.sched[i].At < d.sched[j].At })
-	d.mu.Unlock()
+	d.ResetTrace()
+	sc := append([]vfdoubles.Sched(nil), scn.During...)
+	sort.SliceStable(sc, func(i, j int) bool { return sc[i].At < sc[j].At })
+	d.SetSchedule(sc)
 
 	refresh := func() {
-		if !d.releaseParked() {
+		if !d.ReleaseParked() {
 			res.Notes = append(res.Notes, "refresh-not-parked")
 			return
 		}
@@ -140,7 +136,7 @@ func vfcRun(scn *vfcScn) (*vfcResult, error) {
 			return
 		}
 		d.Log("R")
-		if !d.waitParked(2 * time.Second) {
+		if !d.WaitParked(2 * time.Second) {
 			res.Notes = append(res.Notes, "repark-timeout")
 		}
 	}
@@ -164,7 +160,7 @@ func vfcRun(scn *vfcScn) (*vfcResult, error) {
 		default:
 			b = c.NewTxnBatcher()
 		}
-		at := &vfcAttempt{Batch: i, Seg: d.seg}
+		at := &vfcAttempt{Batch: i, Seg: d.Seg()}
 		for j, cm := range scn.Batches[i] {
 			if first && scn.MidPut[fmt.Sprintf("%d.%d", i, j)] {
 				refresh()
@@ -184,7 +180,7 @@ func vfcRun(scn *vfcScn) (*vfcResult, error) {
 				res.Notes = append(res.Notes, fmt.Sprintf("put-rejected:%d:%s", cm.ID, vfcErrClass(perr)))
 				continue
 			}
-			n := d.nodeOfAddr(rs[len(rs)-1])
+			n := d.NodeOfAddr(rs[len(rs)-1])
 			at.Routes = append(at.Routes, n)
 			at.IDs = append(at.IDs, cm.ID)
 			d.Log(fmt.Sprintf("P:%d:%d:%d:%d", i, cm.ID, cm.Keys[0], n))
@@ -202,24 +198,20 @@ func vfcRun(scn *vfcScn) (*vfcResult, error) {
 	// not arrived is recorded as unsent ("U").
 	settle := func(at *vfcAttempt, failed bool) {
 		if !failed {
-			if !d.waitSeen(at.IDs, 2*time.Second) {
+			if !d.WaitSeen(at.IDs, 2*time.Second) {
 				res.Notes = append(res.Notes, "quiesce-timeout")
 			}
 			return
 		}
-		if d.waitSeen(at.IDs, 150*time.Millisecond) {
+		if d.WaitSeen(at.IDs, 150*time.Millisecond) {
 			return
 		}
-		d.mu.Lock()
-		for _, id := range at.IDs {
-			if !d.seen[id] {
-				if !txn {
-					d.trace = append(d.trace, fmt.Sprintf("U:%d:%d", at.Batch, id))
-				}
-				res.Notes = append(res.Notes, "unsent")
+		for _, id := range d.Unseen(at.IDs) {
+			if !txn {
+				d.Log(fmt.Sprintf("U:%d:%d", at.Batch, id))
 			}
+			res.Notes = append(res.Notes, "unsent")
 		}
-		d.mu.Unlock()
 	}
 	finish := func(at *vfcAttempt, err error) {
 		at.OK = err == nil
@@ -255,10 +247,7 @@ func vfcRun(scn *vfcScn) (*vfcResult, error) {
 				if txn || try >= 2 {
 					break outer
 				}
-				d.mu.Lock()
-				d.seg++
-				d.trace = append(d.trace, "X")
-				d.mu.Unlock()
+				d.NextSegment()
 			}
 		}
 	default: // pipe, txnpipe: Dispatch ahead, Receive in order
@@ -312,13 +301,7 @@ func vfcRun(scn *vfcScn) (*vfcResult, error) {
 			res.Attempts = append(res.Attempts, *f.at)
 		}
 	}
-	d.mu.Lock()
-	res.Trace = append([]string(nil), d.trace...)
-	res.Execs = append([]vfcExec(nil), d.execs...)
-	for _, l := range d.nodeLog {
-		res.NodeLog = append(res.NodeLog, append([]string(nil), l...))
-	}
-	d.mu.Unlock()
+	res.Trace, res.Execs, res.NodeLog = d.Snapshot()
 	return res, nil
 }
 
@@ -465,7 +448,7 @@ func vfcRouteSplit(scn *vfcScn, res *vfcResult) (int, bool) {
 			p := strings.Split(e, ":")
 			switch p[0] {
 			case "P":
-				id, slot, n := atoi(p[2]), vfcSlot(scn.Keys[atoi(p[3])]), atoi(p[4])
+				id, slot, n := atoi(p[2]), vfdoubles.ClusterSlot(scn.Keys[atoi(p[3])]), atoi(p[4])
 				for _, o := range out {
 					if o.slot == slot && o.node != n {
 						return id, true
@@ -495,7 +478,7 @@ func vfcRouteSplit(scn *vfcScn, res *vfcResult) (int, bool) {
 			if len(cur) == 0 {
 				continue
 			}
-			tid, slot, n := atoi(cur[0][2]), vfcSlot(scn.Keys[atoi(cur[0][3])]), atoi(cur[0][4])
+			tid, slot, n := atoi(cur[0][2]), vfdoubles.ClusterSlot(scn.Keys[atoi(cur[0][3])]), atoi(cur[0][4])
 			cur = nil
 			for _, o := range out {
 				if o.slot == slot && o.node != n {
@@ -587,11 +570,11 @@ func vfcGen(r *vfutil.Rand, name string) *vfcScn {
 	sims := make([]*sim, nt)
 	slots := make([]int, nt)
 	for t := 0; t < nt; t++ {
-		slots[t] = vfcSlot(scn.Keys[tagKeys[t][0]])
+		slots[t] = vfdoubles.ClusterSlot(scn.Keys[tagKeys[t][0]])
 		o := slots[t] * m / 16384
 		sims[t] = &sim{owner: o, dst: -1, visited: map[int]bool{o: true}, moved: map[int]bool{}}
 	}
-	nextEv := func() (vfcMigEv, bool) {
+	nextEv := func() (vfdoubles.MigEv, bool) {
 		t := r.Intn(nt)
 		sm := sims[t]
 		if sm.dst < 0 {
@@ -602,17 +585,17 @@ func vfcGen(r *vfutil.Rand, name string) *vfcScn {
 				}
 			}
 			if len(cand) == 0 {
-				return vfcMigEv{}, false
+				return vfdoubles.MigEv{}, false
 			}
 			dst := vfutil.Pick(r, cand)
 			sm.visited[dst] = true
 			if r.Chance(1, 3) {
 				sm.owner = dst
-				return vfcMigEv{Kind: "v", Slot: slots[t], Dst: dst}, true
+				return vfdoubles.MigEv{Kind: "v", Slot: slots[t], Dst: dst}, true
 			}
 			sm.dst = dst
 			sm.moved = map[int]bool{}
-			return vfcMigEv{Kind: "g", Slot: slots[t], Dst: dst}, true
+			return vfdoubles.MigEv{Kind: "g", Slot: slots[t], Dst: dst}, true
 		}
 		var rest []int
 		for _, k := range tagKeys[t] {
@@ -623,10 +606,10 @@ func vfcGen(r *vfutil.Rand, name string) *vfcScn {
 		if len(rest) > 0 && r.Chance(2, 3) {
 			k := vfutil.Pick(r, rest)
 			sm.moved[k] = true
-			return vfcMigEv{Kind: "k", Key: scn.Keys[k]}, true
+			return vfdoubles.MigEv{Kind: "k", Key: scn.Keys[k]}, true
 		}
 		sm.owner, sm.dst = sm.dst, -1
-		return vfcMigEv{Kind: "f", Slot: slots[t]}, true
+		return vfdoubles.MigEv{Kind: "f", Slot: slots[t]}, true
 	}
 	// events are generated in one global order and then placed either between
 	// batches or at a request count; both placements preserve that order
@@ -654,7 +637,7 @@ func vfcGen(r *vfutil.Rand, name string) *vfcScn {
 				at = pos
 			}
 			pos = at
-			scn.During = append(scn.During, vfcSched{At: at, Ev: ev})
+			scn.During = append(scn.During, vfdoubles.Sched{At: at, Ev: ev})
 		}
 		if r.Chance(1, 3) {
 			scn.Between[bi] = append(scn.Between[bi], vfcAct{Refresh: true})
